@@ -16,6 +16,18 @@ Theorem C10_commands : forall env d st, at_halt st = false ->
 Proof. exact resume_commands. Qed.
 Print Assumptions C10_commands.
 
+(** The iteration in which a resuming command is read: from a waiting debugger at a runnable state
+    that is not on HALT, the command arms its status and the instruction at PC executes in that
+    same iteration — whether or not a breakpoint sits at PC (resuming executes the marked
+    instruction once); exactly one command is read and exactly one instruction executed. *)
+Theorem C10_resume_tick : forall env c rest d st d1 d2,
+  d_status d = WaitForAction -> at_halt st = false -> runnable st ->
+  run_command env c (check_interrupts d st) st = CmdNone d1 st ->
+  dispatch_status d1 st = (Some Proceed, d2) ->
+  after_exec1 env rest d2 st (tick env (c :: rest) d st).
+Proof. exact tick_resume. Qed.
+Print Assumptions C10_resume_tick.
+
 (** HALT is never executed while the debugger is attached: resuming commands are refused there. *)
 Theorem C10_halt_refused : forall env d st c, at_halt st = true ->
   match c with CStepInto _ | CContinue | CStepOver => True | _ => False end ->
